@@ -7,6 +7,9 @@ EXPLANATION = (
     "a, -a, b, -b against every subset of {a, b} (complete truth tables, ~190 rows): the result equals the AND of "
     "OR-groups with '-' negation. TagExpression.__init__ evaluated on decorated arguments ('@a,-@b', '~c', '-@slow:3', "
     "'~slow:3,@fast:2'): stored literals keep the negation, lose '@' and ':limit', limits are recorded per tag. "
+    "End to end: ~300 renderings (plain / @ / ~ / ~@ / :limit / padded decoration, list and space-separated string form) of "
+    "CNF formulas over a, -a, b, -b incl. a tag in both polarities are parsed by the real __init__ / _parse_tag_expression_v1 "
+    "and evaluated by the real check() on every subset of {a, b} (constant folding), against the formula's own truth table. "
     "U2: _select_tag_expression_parser4auto evaluated for all 32 combinations of its four word predicates and "
     "one/several words: v1 NOT-prefix with a v2 keyword or wildcard is a TagExpressionError, a v2 keyword or wildcard "
     "selects v2, comma/prefix/several words select v1, a single plain word selects v2; and on the text "
@@ -25,9 +28,10 @@ TECHNIQUE = "static analysis: abstract evaluation of v1 check() over complete tr
 
 def run(chk, ix, tier):
     rules_tags.check_v1(chk, ix)
+    rules_tags.check_v1_end_to_end(chk, ix)
     rules_tags.check_autodetect(chk, ix)
     rules_tags.check_autodetect_concrete(chk, ix)
     rules_tags.check_tables_and_dispatch(chk, ix)
     rules_tags.check_protocol_use(chk, ix, "U5")
-    for r, n in (("U1", 150), ("U2", 85), ("U3", 2), ("U4", 7), ("U5", 2)):
+    for r, n in (("U1", 900), ("U2", 85), ("U3", 2), ("U4", 7), ("U5", 2)):
         chk.require_instances(r, n)
